@@ -177,3 +177,66 @@ def reachable_defs(ctx: Ctx, callee: Callee, V: str, through_send: bool = True) 
                     elif t.kind == "ctor" and t.frame is not None:
                         work.append(t.frame)
     return [(fr.func, fr) for fr in seen.values()]
+
+
+def call_paths(ctx: Ctx, start: Frame, target_fqs: set, limit: int = 20) -> list[list[tuple[Frame, ast.Call]]]:
+    """Call-graph paths [(caller frame, call node), ...] from `start` to any function in target_fqs."""
+    I = ctx.I
+    out: list = []
+    seen_frames: set = set()
+
+    def rec(fr: Frame, path: list) -> None:
+        if len(out) >= limit or len(path) > 25:
+            return
+        k = fr.key()
+        if k in seen_frames:
+            return
+        seen_frames.add(k)
+        for n in ctx.own_nodes(fr.func):
+            if not isinstance(n, ast.Call):
+                continue
+            if isinstance(n.func, ast.Name) and n.func.id in ("isinstance", "cast", "super", "getattr"):
+                continue
+            try:
+                ts = I.resolve_call(n, fr)
+            except AnalysisError:
+                continue
+            for t in ts:
+                if t.kind in ("repo", "ctor") and t.frame is not None:
+                    step = path + [(fr, n)]
+                    if t.frame.func.fq in target_fqs:
+                        out.append(step)
+                    else:
+                        rec(t.frame, step)
+        seen_frames.discard(k)
+
+    rec(start, [])
+    return out
+
+
+def catching_handler(ctx: Ctx, f: FuncInfo, node: ast.AST, exc: str):
+    """The innermost try handler around `node` in f that catches `exc` and does not re-raise; or None."""
+    eea = ctx.eea()
+    fr = Frame(Callee(f, f.cls, ()), None)
+    cur = node
+    while cur in ctx.prog.parents and cur is not f.node:
+        par = ctx.prog.parents[cur]
+        if isinstance(par, ast.Try) and any(cur is b for b in par.body):
+            for h in par.handlers:
+                elts = h.type.elts if isinstance(h.type, ast.Tuple) else [h.type] if h.type is not None else []
+                names = [eea.exc_class_of(x, fr) for x in elts] or ["builtins.BaseException"]
+                if any(nm and eea.issub(exc, nm) for nm in names):
+                    reraises = any(isinstance(x, ast.Raise) for x in h.body) or any(isinstance(x, ast.Raise) and x.exc is None for b in h.body for x in ast.walk(b))
+                    if not reraises:
+                        return h
+                    break
+        if isinstance(par, (ast.With, ast.AsyncWith)) and any(cur is b for b in par.body):
+            for it in par.items:
+                ce = it.context_expr
+                if isinstance(ce, ast.Call) and norm(ce.func).endswith("suppress"):
+                    for a in ce.args:
+                        nm = eea.exc_class_of(a, fr)
+                        if nm and eea.issub(exc, nm):
+                            return par
+        cur = par
+    return None
